@@ -167,6 +167,10 @@ def gen_rs_conditions(rng, role, now=0, freq=10):
             conds.append(K.cond("Canary", rng.choice(["True", "False"]), trans=-700))
         if rng.random() < 0.15:
             conds.append(K.cond("Canary-Failed", rng.choice(["True", "False"]), trans=-700, reason="Unknown"))
+        if rng.random() < 0.2:
+            # left over from the time this replica set was a (paused) canary: promoted by validation while paused
+            conds.append(K.cond("Canary-Paused", rng.choice(["True", "True", "False"]), trans=-650,
+                                reason=rng.choice(["CrashLoopBackOff", "ImagePullBackOff", "Unknown"])))
     if role == "canary":
         if rng.random() < 0.7:
             conds.append(K.cond("Canary", "True", trans=rng.choice([-30, -600, -601, -3000])))
